@@ -23,6 +23,11 @@ from .core import Check, run_tlc, tla
 LEVEL = "model_checking"
 
 ALPHABET = "aB1_- .$é名"
+# second stratum (shorter strings): ASCII letter / digit / underscore plus one or two representatives of each Unicode class
+#   \w but not XID (superscript two, one half, circled one) | XID_Continue but not XID_Start (combining acute, Arabic-Indic
+#   digit three) | NFKC-compatibility letters (ligature fi, black-letter H, full-width f) | case mapping changes length (sharp s,
+#   capital I with dot)
+UALPHABET = "a1_" + "\u00b2\u00bd\u2460" + "\u0301\u0663" + "\ufb01\u210c\uff46" + "\u00df\u0130"
 NS_KINDS = ["props", "params", "schemas", "enum", "ops"]
 COMPONENT_NAME = re.compile(r"^[a-zA-Z0-9._-]+$")  # OpenAPI 3.0.3, Components Object keys
 SUFFIXED = re.compile(r"(_|[A-Za-z])\d+$")
@@ -46,13 +51,58 @@ def fold(s: str) -> str:
 # harness-supplied constants of Naming.tla
 
 
-def consts_module(nonascii: set[int]) -> str:
-    """NamingConsts.tla for the interpreter that runs the code under test."""
+def py_accepts(s: str) -> bool:
+    """Does the interpreter itself take `s` as a name?  (keywords are judged separately, by Keyword)"""
     import keyword
 
+    if not s.isidentifier():
+        return False
+    if keyword.iskeyword(s):
+        return True
+    try:
+        compile(f"{s} = 1\n", "<c20>", "exec")
+        return True
+    except (SyntaxError, ValueError):
+        return False
+
+
+def consts_module(nonascii: set[int], idents: set[str] = frozenset(), nfkc: bool = False) -> str:
+    """NamingConsts.tla for the interpreter that runs the code under test: per-code-point XID classes for the
+    non-ASCII code points that occur, the identifiers the interpreter refuses although every code point passes, and
+    (nfkc=True) the NFKC normal form of the identifiers that differ from it."""
+    import keyword
+    import unicodedata
+
+    nonascii = set(nonascii)
+    pairs = []
+    for s in sorted(idents):
+        n = unicodedata.normalize("NFKC", s)
+        if n != s:
+            nonascii.update(ord(c) for c in n if ord(c) > 127)
+            if nfkc:
+                pairs.append((s, n))
     start = {c for c in nonascii if chr(c).isidentifier()}
     cont = {c for c in nonascii if ("a" + chr(c)).isidentifier()}
     kws = ", ".join(tla(cps(k)) for k in keyword.kwlist)
+
+    def per_char(s: str) -> bool:
+        def st(c: str) -> bool:
+            return (c.isascii() and (c.isalpha() or c == "_")) or (not c.isascii() and ord(c) in start)
+
+        def ct(c: str) -> bool:
+            return (c.isascii() and (c.isalnum() or c == "_")) or (not c.isascii() and (ord(c) in start or ord(c) in cont))
+
+        return bool(s) and st(s[0]) and all(ct(c) for c in s[1:])
+
+    refused = []
+    for s in sorted(idents):
+        if s.isascii():
+            continue
+        a, b = per_char(s), py_accepts(s)
+        if a and not b:
+            refused.append(s)
+        elif b and not a:
+            raise core.MachineryError(f"Naming!Ident would reject {s!r} but the interpreter accepts it")
 
     def intset(s: set[int]) -> str:
         return "{" + ", ".join(str(x) for x in sorted(s)) + "}"
@@ -61,6 +111,8 @@ def consts_module(nonascii: set[int]) -> str:
 ConstXidStart == {intset(start)}
 ConstXidContinue == {intset(cont)}
 ConstKeywords == {{{kws}}}
+ConstPyInvalid == {{{", ".join(tla(cps(s)) for s in refused)}}}
+ConstNfkcPairs == {{{", ".join("<<" + tla(cps(a)) + ", " + tla(cps(b)) + ">>" for a, b in pairs)}}}
 ConstDesignNames == {{{tla(cps('x'))}, {tla(cps('X'))}, {tla(cps('x_2'))}, {tla(cps('a-b'))}}}
 ====
 """
@@ -69,6 +121,8 @@ ConstDesignNames == {{{tla(cps('x'))}, {tla(cps('X'))}, {tla(cps('x_2'))}, {tla(
 CONST_CFG = """ XidStart <- ConstXidStart
  XidContinue <- ConstXidContinue
  Keywords <- ConstKeywords
+ PyInvalid <- ConstPyInvalid
+ NfkcPairs <- ConstNfkcPairs
 """
 
 
@@ -111,18 +165,25 @@ CHECK_DEADLOCK FALSE
 # (B) scenario generation
 
 
-def gen_names(chk: Check, maxlen: int) -> list[list[int]]:
+def gen_names(chk: Check, maxlen: int, umaxlen: int = 3) -> list[list[int]]:
     cfg = f"""SPECIFICATION Spec
 CONSTANTS
  Alphabet = {{{", ".join(str(ord(c)) for c in ALPHABET)}}}
  MaxLen = {maxlen}
+ UAlphabet = {{{", ".join(str(ord(c)) for c in UALPHABET)}}}
+ UMaxLen = {umaxlen}
 CHECK_DEADLOCK FALSE
 """
     r = run_tlc(chk.scratch, "Gen_Names", cfg, files={"NamingConsts.tla": consts_module(set())}, workers=8)
-    chk.add_tlc(f"Gen_Names[<={maxlen}]", r)
+    chk.add_tlc(f"Gen_Names[<={maxlen},unicode<={umaxlen}]", r)
     out = sorted({tuple(x["s"]) for x in r.printed.get("SCEN", [])}, key=lambda t: (len(t), t))
-    chk.require(len(out) >= (10 ** (maxlen + 1) - 1) // 9, f"Gen_Names emitted only {len(out)} strings")
+    chk.require(len(out) >= (10 ** (maxlen + 1) - 1) // 9 + len(UALPHABET) ** umaxlen // 2, f"Gen_Names emitted only {len(out)} strings")
     return [list(t) for t in out]
+
+
+def decode_name(n: str) -> str:
+    """Gen_Alloc writes non-ASCII code points as {HEX}."""
+    return re.sub(r"\{([0-9A-F]{4,6})\}", lambda m: chr(int(m.group(1), 16)), n)
 
 
 def gen_alloc(chk: Check, maxlen: int, taglen: int | None = None) -> list[dict]:
@@ -138,6 +199,8 @@ CHECK_DEADLOCK FALSE
     chk.add_tlc(f"Gen_Alloc[<={maxlen}]", r)
     sc = r.printed.get("SCEN", [])
     chk.require(len(sc) > 0, "Gen_Alloc produced no scenario")
+    for s in sc:
+        s["names"] = [decode_name(n) for n in s["names"]]
     sc.sort(key=lambda d: json.dumps(d, sort_keys=True))
     return sc
 
@@ -149,14 +212,21 @@ CHECK_DEADLOCK FALSE
 def run_monitor(chk: Check, traces: list[dict], label: str) -> dict[str, dict]:
     """Run Trace_Naming over the traces (chunked); returns verdicts by trace id."""
     nonascii: set[int] = set()
+    idents: set[str] = set()
     for t in traces:
         for e in t["ev"]:
             nonascii.update(c for c in e["spec"] if c > 127)
             nonascii.update(c for c in e["ident"] if c > 127)
-        for lst in t["req"].values():
+            if e["st"] == "ok" and any(c > 127 for c in e["ident"]):
+                idents.add(txt(e["ident"]))
+        for lst in list(t["req"].values()) + list(t["present"].values()):
             for s in lst:
                 nonascii.update(c for c in s if c > 127)
-    files = {"NamingConsts.tla": consts_module(nonascii)}
+        for lst in t["back"].values():
+            for a, b in lst:
+                nonascii.update(c for c in a + b if c > 127)
+    # the NFKC map is only needed where several names share a namespace (part ii)
+    files = {"NamingConsts.tla": consts_module(nonascii, idents, nfkc=any(t["req"] for t in traces))}
     cfg = f"SPECIFICATION Spec\nCONSTANTS\n{CONST_CFG}CHECK_DEADLOCK FALSE\n"
     out: dict[str, dict] = {}
     step = 25000
@@ -221,6 +291,11 @@ def part_i(chk: Check, inputs: list[list[int]], label: str = "functions") -> Non
             loc = {"derivation": f["ns"], "input_class": f["cls"], "via": "function"}
             if f["clause"] == "C20.keyword":
                 loc["ident"] = ident
+            if f["clause"] == "C20.invalid":
+                loc["why"] = f["why"]
+            if f["clause"] == "C20.empty":
+                # plain predicate on the input: does it contain anything a regex \\w would keep?
+                loc["input_has_word_char"] = any(ch.isalnum() or ch == "_" for ch in s)
             d = per_kind_fail.setdefault(f["ns"], {})
             d[f["clause"]] = d.get(f["clause"], 0) + 1
             chk.fail(f["clause"], loc, {"part": "i", "input": s, "input_cps": e["spec"], "derivation": f["ns"], "output": ident}, f"{f['ns']}({s!r}) = {ident!r}")
@@ -476,6 +551,8 @@ def part_ii(chk: Check, scens: list[dict], label: str = "packages") -> None:
                 loc = {"derivation": f["ns"], "input_class": f["cls"], "via": "artifact"}
                 if f["clause"] == "C20.keyword":
                     loc["ident"] = txt(e["ident"])
+                if f["clause"] == "C20.invalid":
+                    loc["why"] = f["why"]
                 chk.fail(f["clause"], loc, scen, f"{f['ns']}: {txt(e['spec'])!r} -> {txt(e['ident'])!r}")
                 continue
             who = partner(t, f)
@@ -484,6 +561,15 @@ def part_ii(chk: Check, scens: list[dict], label: str = "packages") -> None:
                 # through which tag positions the names involved reach this client class (first tag = 1)
                 tag = f["ns"].split(":")[1]
                 loc["tag_positions"] = sorted({sc["tags"][sc["names"].index(n)].index(tag) + 1 for n in who if n in sc["names"] and tag in sc["tags"][sc["names"].index(n)]})
+            if f["clause"] in ("C20.collision", "C20.merged"):
+                # how many numeric suffixes the identifier that is shared / taken over carries (v_2 -> 1, v_2_2 -> 2)
+                if f["clause"] == "C20.collision":
+                    shared = txt(t["ev"][f["i"] - 1]["ident"])
+                else:
+                    spec0 = t["req"][f["ns"]][f["i"] - 1]
+                    shared = txt([x["ident"] for x in t["ev"] if x["ns"] == f["ns"] and x["spec"] == spec0][-1])
+                m = re.search(r"(?:_\d+)+$", shared)
+                loc["ident_suffix_depth"] = len(re.findall(r"_\d+", m.group(0))) if m else 0
             if f["clause"] == "C20.dropped":
                 loc["input_class"] = f["cls"]
                 got = {txt(e["spec"]) for e in t["ev"] if e["ns"] == f["ns"]}
@@ -500,10 +586,11 @@ def part_ii(chk: Check, scens: list[dict], label: str = "packages") -> None:
 def run(chk: Check) -> None:
     thorough = chk.tier == "thorough"
     k1, k2 = (5, 4) if thorough else (4, 3)
+    ku = 3 if thorough else 2
     chk.cov["rule"] = (
         f"(i) every string of length <={k1} over the alphabet {{a,B,1,_,-,space,.,$,U+00E9,U+540D}} plus 10 case/separator variants of every "
-        f"keyword, through the 10 derivations on the generation path; (ii) every allocation order (sequence without repetition) of "
-        f"length <={k2} from 5 colliding families in each of 5 namespace kinds, plus colliding operationIds (2..{k2 - 1} of them) reaching one client class through different tag positions (tag lists [T], [U,T], [T,U], [V,T]), generated + imported; non-trivial = input that is not "
+        f"keyword, plus every string of length <={ku} over 13 symbols representing Unicode classes (\\w-not-XID, XID_Continue-not-Start, NFKC-compatibility, length-changing case), through the 10 derivations on the generation path; (ii) every allocation order (sequence without repetition) of "
+        f"length <={k2} from 6 colliding families (one of NFKC-equivalent names) in each of 5 namespace kinds, plus colliding operationIds (2..{k2 - 1} of them) reaching one client class through different tag positions (tag lists [T], [U,T], [T,U], [V,T]), generated + imported; non-trivial = input that is not "
         f"already an ASCII identifier (i) / namespace with >=2 names (ii)"
     )
     chk.assumptions += [
@@ -513,7 +600,7 @@ def run(chk: Check) -> None:
         "spec name <-> identifier is read from the artefact (Meta maps, dict literals of the method body, docstring tokens, marker properties), never recomputed with a sanitiser",
     ]
     design(chk)
-    part_i(chk, gen_names(chk, k1))
+    part_i(chk, gen_names(chk, k1, ku))
     part_ii(chk, gen_alloc(chk, k2))
     chk.cov["exhaustive"] = True
 
